@@ -372,7 +372,22 @@ add('STREAM',
     Rule('X-STREAM', 'circular_buffer::BufferWriter', 'BufferWriter'),
     Rule('X-STREAM', 'Arc::strong_count(&self.circ)', 'self.circ.strong_count()'),
     Rule('X-STREAM', 'Arc::clone(&self.circ).read_buf()', 'self.circ.clone_read_buf()'),
-    Rule('X-STREAM', 'Arc::clone(&self.circ).write_buf()', 'self.circ.clone_write_buf()'))
+    Rule('X-STREAM', 'Arc::clone(&self.circ).write_buf()', 'self.circ.clone_write_buf()'),
+    # ReadStream::eof / new_stream
+    Rule('X-STREAM', 'self.circ.clone_read_buf().expect($s:e)', 'expect_ok(self.circ.clone_read_buf())'),
+    Rule('X-STREAM', 'Arc::new(circular_buffer::Buffer::new($n:e).unwrap())', 'BufArc::new_buffer_or_panic($n)'),
+    # X-NCQ: the packet queue Arc<(Mutex<VecDeque<T>>, Condvar)> -> NcQ<T>; each critical section is atomic (as X-LOCK)
+    Rule('X-NCQ', 'Arc<(Mutex<VecDeque<T>>, Condvar)>', 'NcQ<T>'),
+    Rule('X-NCQ', 'Arc::new((Mutex::new(VecDeque::new()), Condvar::new()))', 'NcQ::new_shared()'),
+    Rule('X-NCQ', 'let (lock, cv) = &*self.q;', '', stmt_start=True),
+    Rule('X-NCQ', 'cv.notify_all();', '', stmt_start=True),
+    Rule('X-NCQ', 'lock.lock().unwrap()', 'self.q'),
+    Rule('X-NCQ', 'self.q.0.lock().unwrap()', 'self.q'),
+    Rule('X-NCQ', 'Arc::strong_count(&self.q)', 'self.q.strong_count()'),
+    Rule('X-NCQ', 'self.q.pop_front().map(|v| (v, Vec::new()))', 'opt_with_no_tags(self.q.pop_front())'),
+    Rule('X-NCQ', 'self.q.pop_back().map(|v| (v, Vec::new()))', 'opt_with_no_tags(self.q.pop_back())'),
+    Rule('X-NCQ', 'self.q.back().map(|e| e.len())', 'opt_len(self.q.back())'),
+    Rule('X-NCQ', 'self.q.front().map(|e| e.len())', 'opt_len(self.q.front())'))
 
 # X-IL2P (unit il2p)
 add('IL2P',
